@@ -1,19 +1,21 @@
-(* Proofs about Model/RunEffects.v.  The configuration space is finite (eight flags,
-   six fail points in the body of `try`, three in `finally`, or none): the statements are
-   checked on every combination by computation, after `destruct`, and stated for all
-   configurations. *)
+(* Proofs about Model/RunEffects.v.  The configuration space is finite (eight flags; the failure
+   is a pair: one of six fail points in the body of `try` or none, one of four in `finally` or
+   none): the statements are checked on every combination (256 x 7 x 5) by computation, after
+   `destruct`, and stated for all configurations.  They are FINITE CHECKS OF THE TRANSCRIPTION
+   in Model/RunEffects.v; that the real run_mapping has these traces is what the tie compares. *)
 From Coq Require Import ZArith List Bool Lia.
 From CTM Require Import Base.Sx Model.Pool Model.RunEffects Proofs.PoolP.
 Import ListNotations.
 
-Lemma inner_raised_checked : forall c fail,
-  snd (inner c fail) = None -> failed_run_ok c fail = true.
+Lemma inner_raised_checked : forall c fail ff,
+  snd (inner c fail) = None -> fin_quiet c ff = true -> failed_run_ok c fail ff = true.
 Proof.
-  intros [[] [] [] [] [] [] [] []] [[]|]; vm_compute; intros H; try reflexivity; discriminate H.
+  intros [[] [] [] [] [] [] [] []] [[]|] [[]|]; vm_compute; intros H H'; try reflexivity;
+    try discriminate H; discriminate H'.
 Qed.
 
-Lemma assign_failed_no_csv : forall c, no_csv c (Some PAssign) = true.
-Proof. intros [[] [] [] [] [] [] [] []]; vm_compute; reflexivity. Qed.
+Lemma assign_failed_no_csv : forall c ff, no_csv c (Some PAssign) ff = true.
+Proof. intros [[] [] [] [] [] [] [] []] [[]|]; vm_compute; reflexivity. Qed.
 
 Lemma assign_failed_inner : forall c, snd (inner c (Some PAssign)) = None.
 Proof. intros [[] [] [] [] [] [] [] []]; vm_compute; reflexivity. Qed.
@@ -24,44 +26,78 @@ Proof. intros [[] [] [] [] [] [] [] []]; vm_compute; reflexivity. Qed.
 (* the result buffer directory is removed on EVERY path — wherever the run fails, or not at
    all — and where in the trace: after it was made, after the failing step and the traceback,
    before the tmp directory goes and before the log file / JSON / HDF5 are written *)
-Lemma buffer_cleaned_checked : forall c fail, buffer_cleaned c fail = true.
-Proof. intros [[] [] [] [] [] [] [] []] [[]|]; vm_compute; reflexivity. Qed.
+Lemma buffer_cleaned_checked : forall c fail ff, buffer_cleaned c fail ff = true.
+Proof. intros [[] [] [] [] [] [] [] []] [[]|] [[]|]; vm_compute; reflexivity. Qed.
 
-Lemma buffer_cleaned_unfold : forall c fail,
-  let tr := fst (run_mapping c fail) in
+(* the same as ONE boolean, checked on every combination by computation; the readable statement below is
+   read off it without any further case analysis *)
+Definition buffer_unfold_b (c : cfg) (fail : option point) (ff : option fpoint) : bool :=
+  let tr := fst (run_mapping c fail ff) in
+  has_eff 3 tr && has_eff 10 tr && before 3 10 tr &&
+  implb (body_raised c fail) (before 12 10 tr && before 13 10 tr && implb (has_eff 19 tr) (before 10 19 tr) &&
+                              implb (fin_quiet c ff) (has_eff 19 tr)) &&
+  implb (has_tmp c) (before 10 14 tr) &&
+  implb (has_eff 16 tr) (before 10 16 tr) && implb (has_eff 17 tr) (before 10 17 tr) &&
+  implb (has_eff 18 tr) (before 10 18 tr) && implb (has_eff 20 tr) (before 10 20 tr) &&
+  implb (fin_quiet c ff) (implb (has_log_path c) (has_eff 16 tr) && implb (has_json c) (has_eff 17 tr) &&
+                          implb (has_hdf5 c) (has_eff 18 tr)).
+Lemma buffer_unfold_checked : forall c fail ff, buffer_unfold_b c fail ff = true.
+Proof. intros [[] [] [] [] [] [] [] []] [[]|] [[]|]; vm_compute; reflexivity. Qed.
+Lemma implb_elim (a b : bool) : implb a b = true -> a = true -> b = true.
+Proof. destruct a, b; cbn; congruence. Qed.
+
+Lemma buffer_cleaned_unfold : forall c fail ff,
+  let tr := fst (run_mapping c fail ff) in
   has_eff 3 tr = true /\ has_eff 10 tr = true /\ before 3 10 tr = true /\
-  (body_raised c fail = true -> before 12 10 tr = true /\ before 13 10 tr = true /\ before 10 19 tr = true) /\
+  (body_raised c fail = true -> before 12 10 tr = true /\ before 13 10 tr = true /\
+                                (has_eff 19 tr = true -> before 10 19 tr = true) /\
+                                (fin_quiet c ff = true -> has_eff 19 tr = true)) /\
   (has_tmp c = true -> before 10 14 tr = true) /\
   (has_eff 16 tr = true -> before 10 16 tr = true) /\
   (has_eff 17 tr = true -> before 10 17 tr = true) /\
   (has_eff 18 tr = true -> before 10 18 tr = true) /\
   (has_eff 20 tr = true -> before 10 20 tr = true) /\
   (* without a failure inside `finally` every requested output is written *)
-  ((forall p, fail = Some p -> in_finally p = false) ->
+  (fin_quiet c ff = true ->
    (has_log_path c = true -> has_eff 16 tr = true) /\
    (has_json c = true -> has_eff 17 tr = true) /\
    (has_hdf5 c = true -> has_eff 18 tr = true)).
 Proof.
-  intros [[] [] [] [] [] [] [] []] [[]|]; vm_compute; repeat split; intros; try reflexivity; try discriminate;
-    match goal with H : forall p, Some ?q = Some p -> _ |- _ => specialize (H q eq_refl); discriminate H end.
+  intros c fail ff tr. pose proof (buffer_unfold_checked c fail ff) as H. unfold buffer_unfold_b in H.
+  fold tr in H.
+  repeat match type of H with (_ && _) = true => apply andb_true_iff in H; destruct H as [H ?] end.
+  repeat match goal with X : implb ?a ?b = true |- _ => pose proof (implb_elim a b X); clear X end.
+  repeat match goal with |- _ /\ _ => split end; try assumption.
+  - intros Hb.
+    match goal with X : body_raised c fail = true -> _ |- _ => specialize (X Hb); rename X into HX end.
+    repeat match type of HX with (_ && _) = true => apply andb_true_iff in HX; destruct HX as [HX ?] end.
+    repeat match goal with X : implb ?a ?b = true |- _ => pose proof (implb_elim a b X); clear X end.
+    repeat split; assumption.
+  - intros Hq.
+    match goal with X : fin_quiet c ff = true -> (_ && _) = true |- _ => specialize (X Hq); rename X into HX end.
+    repeat match type of HX with (_ && _) = true => apply andb_true_iff in HX; destruct HX as [HX ?] end.
+    repeat match goal with X : implb ?a ?b = true |- _ => pose proof (implb_elim a b X); clear X end.
+    repeat split; assumption.
 Qed.
 
 (* a failure inside `finally` (audit 3, item 13): whenever the step at p - the log file, the
    JSON or the HDF5 write - is enabled and raises, the call raises AFTER the success message
    was logged and after the CSV, the obsm of the query file and the summary were written; no
    traceback reaches the log *)
-Lemma finally_failure_after_success : forall c p,
-  fin_enabled c p = true ->
-  finally_failed_trace c (fst (run_mapping c (Some p))) (snd (run_mapping c (Some p))) = true /\
-  prop_trace_ok c (fst (run_mapping c (Some p))) (snd (run_mapping c (Some p))) = false.
+Lemma finally_failure_after_success : forall c bf p,
+  body_raised c bf = false -> fin_enabled c p = true ->
+  finally_failed_trace c (fst (run_mapping c bf (Some p))) (snd (run_mapping c bf (Some p))) = true /\
+  prop_trace_ok c (fst (run_mapping c bf (Some p))) (snd (run_mapping c bf (Some p))) = false /\
+  propagated c bf (Some p) = ExFin p None.
 Proof.
-  intros [[] [] [] [] [] [] [] []] []; vm_compute; intros H; try discriminate H; split; reflexivity.
+  intros [[] [] [] [] [] [] [] []] [[]|] []; vm_compute; intros H H'; try discriminate H; try discriminate H';
+    repeat split; reflexivity.
 Qed.
 
 (* the HDF5 write in particular: the JSON with the complete results is on disk by then *)
 Lemma hdf5_failure_unfold : forall c, has_hdf5 c = true ->
-  let tr := fst (run_mapping c (Some PHdf5)) in
-  snd (run_mapping c (Some PHdf5)) = true /\
+  let tr := fst (run_mapping c None (Some PHdf5)) in
+  snd (run_mapping c None (Some PHdf5)) = true /\
   has_eff 11 tr = true /\ has_eff 13 tr = false /\ has_eff 19 tr = false /\ has_eff 18 tr = false /\
   (has_obsm c = true -> has_eff 8 tr = true) /\ (has_csv c = true -> has_eff 7 tr = true) /\
   (has_log_path c = true -> has_eff 16 tr = true) /\
@@ -73,19 +109,88 @@ Qed.
 
 (* C14, mapping: a failing worker (any schedule, any of the two inspectors' worlds) makes the
    assignment step raise, and then the effect trace is that of a failed run *)
-Theorem mapping_effects : forall (c : cfg) (W : world) (n k : nat),
+Theorem mapping_effects : forall (c : cfg) (W : world) (n k : nat) (ff : option fpoint),
   (1 <= n)%nat -> (exists w, (w < k)%nat /\ code W w <> 0%Z) ->
+  fin_quiet c ff = true ->
   let fail := assign_fail (stage_result false W n k) in
   fail = Some PAssign /\
   snd (inner c fail) = None /\
-  failed_run_ok c fail = true /\ no_csv c fail = true.
+  failed_run_ok c fail ff = true /\ no_csv c fail ff = true /\
+  propagated c fail ff = ExBody PAssign.
 Proof.
-  intros c W n k Hn Hex fail.
+  intros c W n k ff Hn Hex Hq fail.
   destruct (pool_raises false W n k Hn) as (_ & _ & _ & Hr).
   destruct (Hr Hex) as (w & cd & Hw). unfold fail. rewrite Hw. cbn [assign_fail].
   split; [reflexivity|]. split; [apply assign_failed_inner|].
-  split; [apply inner_raised_checked; apply assign_failed_inner | apply assign_failed_no_csv].
+  split; [apply inner_raised_checked; [apply assign_failed_inner | exact Hq] |].
+  split; [apply assign_failed_no_csv|].
+  revert Hq. destruct c as [[] [] [] [] [] [] [] []]; destruct ff as [[]|]; vm_compute; intros Hq;
+    try reflexivity; discriminate Hq.
 Qed.
+
+(* ---- a failure of the body AND a failure inside `finally` (audit 4, A2b) *)
+Lemma double_failure_checked : forall c bf p,
+  body_raised c bf = true -> fin_enabled c p = true ->
+  let r := run_mapping c bf (Some p) in
+  double_failed_trace c p (fst r) (snd r) = true /\
+  (exists q, propagated c bf (Some p) = ExFin p (Some q) /\ failed_body (fst r) = Some q) /\
+  failed_trace_ok c (fst r) (snd r) = false.
+Proof.
+  intros [[] [] [] [] [] [] [] []] [[]|] []; vm_compute; intros H H'; try discriminate H; try discriminate H';
+    (split; [reflexivity | split; [eexists; split; reflexivity | reflexivity]]).
+Qed.
+
+(* the exception the caller sees: none iff the call returns; the body's iff the body raised and
+   `finally` completed; the one of `finally` otherwise *)
+Lemma propagated_cases : forall c bf ff,
+  let r := run_mapping c bf ff in
+  (propagated c bf ff = ExNone <-> snd r = false) /\
+  (body_raised c bf = true -> fin_quiet c ff = true -> exists q, propagated c bf ff = ExBody q) /\
+  (forall p, ff = Some p -> fin_enabled c p = true ->
+     propagated c bf ff = ExFin p (failed_body (fst r)) /\ has_eff 19 (fst r) = false).
+Proof.
+  intros [[] [] [] [] [] [] [] []] [[]|] [[]|]; vm_compute; repeat split; intros; try reflexivity;
+    try discriminate; try (eexists; reflexivity);
+    match goal with H : Some _ = Some ?p |- _ => injection H as <- end; try discriminate; split; reflexivity.
+Qed.
+
+(* a failing worker of the assignment pool and a failing step of `finally`, composed with
+   Model/Pool.v: the caller sees the exception of `finally` (the inspector's RuntimeError only as
+   its __context__); the traceback was added to the in-memory log, but the log FILE is written
+   only if the failing step is not the log write itself; no success message, no CSV, no obsm, no
+   summary, no HDF5, a JSON (without results) only when the failing step is the HDF5 write *)
+Theorem mapping_double_failure : forall (c : cfg) (W : world) (n k : nat) (p : fpoint),
+  (1 <= n)%nat -> (exists w, (w < k)%nat /\ code W w <> 0%Z) ->
+  fin_enabled c p = true ->
+  let fail := assign_fail (stage_result false W n k) in
+  let r := run_mapping c fail (Some p) in
+  snd r = true /\ propagated c fail (Some p) = ExFin p (Some PAssign) /\
+  has_eff 13 (fst r) = true /\ has_eff 19 (fst r) = false /\ has_eff 11 (fst r) = false /\
+  has_eff 7 (fst r) = false /\ has_eff 8 (fst r) = false /\ has_eff 9 (fst r) = false /\
+  has_eff 18 (fst r) = false /\
+  has_eff 16 (fst r) = (has_log_path c && negb (fpoint_eqb p PLogFile)) /\
+  has_eff 17 (fst r) = (has_json c && fpoint_eqb p PHdf5) /\
+  (forall ks, json_keys (fst r) = Some ks -> has_key KResults ks = false).
+Proof.
+  intros c W n k p Hn Hex He fail r.
+  destruct (pool_raises false W n k Hn) as (_ & _ & _ & Hr).
+  destruct (Hr Hex) as (w & cd & Hw). subst r fail. rewrite Hw. cbn [assign_fail].
+  revert He. destruct c as [[] [] [] [] [] [] [] []]; destruct p; vm_compute; intros He; try discriminate He;
+    repeat split; intros; try reflexivity; try discriminate;
+    match goal with H : Some _ = Some _ |- _ => injection H as <-; reflexivity end.
+Qed.
+
+(* "though it still writes its log" is FALSE of a run whose worker failed and whose log path
+   cannot be written (log_path an existing directory: it passes the probe before `try`) *)
+Lemma log_not_written_witness :
+  let c := {| has_tmp := true; has_csv := true; has_obsm := false; has_summary := false; has_log_path := true;
+              has_json := true; has_hdf5 := true; has_gene_map := false |} in
+  let r := run_mapping c (Some PAssign) (Some PLogFile) in
+  snd r = true /\ has_log_path c = true /\ has_eff 16 (fst r) = false /\ has_eff 17 (fst r) = false /\
+  has_eff 18 (fst r) = false /\ prop_trace_ok c (fst r) (snd r) = false /\
+  map eff_tag (fst r) = [1; 2; 3; 4; 5; 12; 13; 10; 14; 15; 20]%Z /\
+  propagated c (Some PAssign) (Some PLogFile) = ExFin PLogFile (Some PAssign).
+Proof. vm_compute. repeat split; reflexivity. Qed.
 
 (* a projection, by definition of failed_trace_ok (= prop_trace_ok && ...): kept only because the
    harness evaluates both predicates on observed traces *)
@@ -100,45 +205,53 @@ Qed.
    statement of the property's clauses (the predicate the harness evaluates on the effects observed
    on the real run_mapping) -- a finite check, 256 configurations x 6 fail points (at the three
    fail points inside `finally` _run_mapping has returned: the hypothesis is false there) *)
-Lemma failed_run_has_property : forall c fail,
-  snd (inner c fail) = None ->
-  prop_trace_ok c (fst (run_mapping c fail)) (snd (run_mapping c fail)) = true.
+Lemma failed_run_has_property : forall c fail ff,
+  snd (inner c fail) = None -> fin_quiet c ff = true ->
+  prop_trace_ok c (fst (run_mapping c fail ff)) (snd (run_mapping c fail ff)) = true.
 Proof.
-  intros [[] [] [] [] [] [] [] []] [[]|]; vm_compute; intros H; try reflexivity; discriminate H.
+  intros [[] [] [] [] [] [] [] []] [[]|] [[]|]; vm_compute; intros H H'; try reflexivity;
+    try discriminate H; discriminate H'.
 Qed.
 
 (* a run that fails at or before the assignment (in particular: a failing worker of the
    assignment pool) never reaches the steps that touch the query file (AppendObsm, tag 8) or
    write the summary (WriteSummary, tag 9) *)
-Lemma early_failure_no_obsm : forall c fail,
+Lemma early_failure_no_obsm : forall c fail ff,
   (fail = Some PCopy \/ fail = Some PMarkerCache \/ fail = Some PAssign) ->
-  has_eff 8 (fst (run_mapping c fail)) = false /\ has_eff 9 (fst (run_mapping c fail)) = false.
+  has_eff 8 (fst (run_mapping c fail ff)) = false /\ has_eff 9 (fst (run_mapping c fail ff)) = false.
 Proof.
-  intros [[] [] [] [] [] [] [] []] fail [-> | [-> | ->]]; vm_compute; split; reflexivity.
+  intros [[] [] [] [] [] [] [] []] fail [[]|] [-> | [-> | ->]]; vm_compute; split; reflexivity.
 Qed.
 
-Theorem failed_run_leaves_query_untouched : forall (c : cfg) (W : world) (n k : nat),
+(* whatever happens inside `finally` (ff arbitrary) *)
+Theorem failed_run_leaves_query_untouched : forall (c : cfg) (W : world) (n k : nat) (ff : option fpoint),
   (1 <= n)%nat -> (exists w, (w < k)%nat /\ code W w <> 0%Z) ->
-  let tr := fst (run_mapping c (assign_fail (stage_result false W n k))) in
+  let tr := fst (run_mapping c (assign_fail (stage_result false W n k)) ff) in
   has_eff 8 tr = false /\ has_eff 9 tr = false /\ has_eff 7 tr = false /\ has_eff 11 tr = false.
 Proof.
-  intros c W n k Hn Hex tr.
+  intros c W n k ff Hn Hex tr.
   destruct (pool_raises false W n k Hn) as (_ & _ & _ & Hr).
   destruct (Hr Hex) as (w & cd & Hw). subst tr. rewrite Hw. cbn [assign_fail].
-  destruct c as [[] [] [] [] [] [] [] []]; vm_compute; repeat split; reflexivity.
+  destruct c as [[] [] [] [] [] [] [] []]; destruct ff as [[]|]; vm_compute; repeat split; reflexivity.
 Qed.
 
 (* for contrast: a clean run with obsm requested does reach AppendObsm *)
 Example clean_run_appends_obsm :
   has_eff 8 (fst (run_mapping {| has_tmp := true; has_csv := true; has_obsm := true; has_summary := true;
                                  has_log_path := true; has_json := true; has_hdf5 := true;
-                                 has_gene_map := false |} None)) = true.
+                                 has_gene_map := false |} None None)) = true.
 Proof. vm_compute. reflexivity. Qed.
 
 (* readable consequences of failed_run_ok *)
-Lemma failed_run_unfold : forall c fail, failed_run_ok c fail = true ->
-  let tr := fst (run_mapping c fail) in
-  snd (run_mapping c fail) = true /\ has_eff 19 tr = true /\ has_eff 11 tr = false /\
+(* a step of `finally` that is not executed, or none: the same run *)
+Lemma fin_quiet_same : forall c bf ff, fin_quiet c ff = true -> run_mapping c bf ff = run_mapping c bf None.
+Proof. intros [[] [] [] [] [] [] [] []] [[]|] [[]|]; vm_compute; intros H; try reflexivity; discriminate H. Qed.
+Lemma failed_run_ok_quiet : forall c bf ff, failed_run_ok c bf ff = true -> fin_quiet c ff = true.
+Proof. intros [[] [] [] [] [] [] [] []] [[]|] [[]|]; vm_compute; intros H; try reflexivity; discriminate H. Qed.
+
+Lemma failed_run_unfold0 : forall c fail, failed_run_ok c fail None = true ->
+  let tr := fst (run_mapping c fail None) in
+  snd (run_mapping c fail None) = true /\ has_eff 19 tr = true /\ has_eff 11 tr = false /\
   has_eff 13 tr = true /\ (has_log_path c = true -> has_eff 16 tr = true) /\
   (forall ks, json_keys tr = Some ks -> has_key KResults ks = false /\
       forall k, has_key k ks = true <-> has_key k (finally_keys c) = true) /\
@@ -154,4 +267,20 @@ Proof.
     | H : Some _ = Some _ |- _ => inversion H; subst; clear H
     | k : key |- _ => destruct k
     end; try reflexivity; try discriminate; try congruence.
+Qed.
+
+Lemma failed_run_unfold : forall c fail ff, failed_run_ok c fail ff = true ->
+  let tr := fst (run_mapping c fail ff) in
+  snd (run_mapping c fail ff) = true /\ has_eff 19 tr = true /\ has_eff 11 tr = false /\
+  has_eff 13 tr = true /\ (has_log_path c = true -> has_eff 16 tr = true) /\
+  (forall ks, json_keys tr = Some ks -> has_key KResults ks = false /\
+      forall k, has_key k ks = true <-> has_key k (finally_keys c) = true) /\
+  (has_json c = true -> exists ks, json_keys tr = Some ks) /\
+  (forall ks b, hdf5_obs tr = Some (ks, b) -> b = false /\ has_key KResults ks = false /\
+      forall k, has_key k ks = true <-> has_key k (finally_keys c) = true) /\
+  (has_hdf5 c = true -> exists ks, hdf5_obs tr = Some (ks, false)).
+Proof.
+  intros c fail ff H. pose proof (failed_run_ok_quiet c fail ff H) as Hq.
+  unfold failed_run_ok in H. rewrite (fin_quiet_same c fail ff Hq) in *.
+  exact (failed_run_unfold0 c fail H).
 Qed.
